@@ -910,6 +910,13 @@ def claim_f64_fast_finite(cx, res, kf):
             continue
         from .symex import FP_UF
         hb, rec = last_in(st)
+        if rec is None:
+            # a path that never reaches the scaling loop: the loop is the only way the documented result can be computed
+            v_ = {"what": "the float conversion returns without going through the scaling loop (table lookup outside it?)", "replayed": None}
+            v_.update(replay_candidates(res, True, TINY_CANDIDATES)(None) or {})
+            if not any(x.get("what") == v_["what"] for x in res.violations):
+                res.violations.append(v_)
+            continue
         fin, ein = rec["f"].e, rec["exponent"].e
         base_case(res, st, 0, base_done,
                   lambda a: z3.And(a["locals"][loc["f"]].e == z3.fpUnsignedToFP(z3.RNE(), info["sig"], z3.Float64()),
